@@ -710,7 +710,7 @@ class SymEval:
                 return r if isinstance(op, ast.In) else not r
             raise Opaque('membership ' + norm(n))
         if isinstance(op, (ast.Is, ast.IsNot)):
-            r = (a is b) if (a is None or b is None or isinstance(a, bool)) else None
+            r = (a is b) if (a is None or b is None or isinstance(a, bool) or (isinstance(a, (SymObj, PyStub)) and isinstance(b, (SymObj, PyStub)))) else None
             if r is None:
                 raise Opaque('identity ' + norm(n))
             return r if isinstance(op, ast.Is) else not r
@@ -1191,6 +1191,10 @@ class SymEval:
 
     def assign(self, t, v, p):
         if isinstance(t, ast.Name):
+            if t.id in p.env.get('__global_names__', ()):
+                self.globals[t.id] = v       # declared `global`: the binding outlives the call (same evaluator = same module state)
+                p.env.pop(t.id, None)
+                return
             p.env[t.id] = v
         elif isinstance(t, (ast.Tuple, ast.List)):
             vs = list(v) if not is_arr(v) else [v[i] for i in range(v.shape[0])]
@@ -1415,6 +1419,10 @@ class SymEval:
         return [p]
 
     def s_Delete(self, s, p):
+        return [p]
+
+    def s_Global(self, s, p):
+        p.env.setdefault('__global_names__', set()).update(s.names)
         return [p]
 
 
